@@ -479,7 +479,7 @@ def batt_cases(ctx, n_sys, faults):
             cap0 = ib * (sum(phases) / len(phases)) * steps / 3600.0
         else:
             cap0 = rng.uniform(0.01, 5.0) if rng.random() > 0.15 else rng.uniform(100.0, 3000.0)     # (also >= 100 Ah)
-        kind = rng.choice(["const", "sag", "ir"])
+        kind = rng.choice(["const", "sag", "ir", "plateau"])
         cutoff = v0 * rng.choice([0.0, 0.5, 0.85, 0.95])
         if rng.random() < 0.25:
             # the battery Source is declared with 0 V: batt_life takes voltage and impedance from the battery model
